@@ -16,6 +16,7 @@ Three streams of cases:
 * ``exh``   (thorough) exhaustive: 3 messages x all delivery orders x one drop point x all replay orders.
 """
 import itertools
+import os
 import random
 
 from twisted.internet import defer
@@ -31,6 +32,12 @@ from ..worlds.mailbox import World
 
 ID = "C03"
 PROP_MODULES = ["WV.Props.C03"]
+# translation validation of the method bodies (tools/extract.py::extract_pyir -> WV/Gen/PyIR.lean, interpreter
+# WV/Model/PyIR.lean): part of the check as soon as the modules are installed (agents/deepPyIR_integration.md)
+for _m in ("PyIR_C03", "PyIR_C03_Boss"):
+    if os.path.exists(os.path.join(os.path.dirname(os.path.dirname(os.path.dirname(os.path.abspath(__file__)))),
+                                   "lean", "WV", "Props", _m + ".lean")):
+        PROP_MODULES.append("WV.Props." + _m)
 TRUSTED = [
     "SecretBox / HKDF / SPAKE2 (an ideal (side, phase)-keyed AEAD interface `Crypto.Ideal` in Lean; the real "
     "primitives run in the harness and ciphertexts are mapped to the driver's toy sealing by the harness)",
